@@ -403,6 +403,13 @@ def concretize(a: Abs, model, wit: Witnesses, p="$"):
         for i in range(n):
             cp = f"{p}/[{i}]" if i < horizon else f"{p}/[]"
             out.append(concretize(a, model, wit, cp) if f"kind@{cp}" in a.atoms else 0)
+        if f"distinct@{p}" in a.atoms:
+            if not z3.is_true(ev(a.distinct(p))):
+                out = (out + out)[:max(2, len(out))] if out else ["dup", "dup"]      # a repeated element
+                if len(out) >= 2:
+                    out[1] = out[0]
+            else:
+                out = [x if not isinstance(x, str) else f"{x}{i}" for i, x in enumerate(out)]
         return out
     out = {}
     for nm in sorted(a.paths.get(("props", p), set())):
@@ -465,7 +472,7 @@ def compare_documents(doc_a, doc_b, timeout_ms=60000):
 def annotation_diffs(sa, sb, where):
     out = []
     if isinstance(sa, dict) and isinstance(sb, dict):
-        for key in ("default", "discriminator"):
+        for key in ("default", "discriminator", "uniqueItems"):
             if sa.get(key, "__absent__") != sb.get(key, "__absent__"):
                 out.append({"where": where, "keyword": key, "a": sa.get(key, "__absent__"), "b": sb.get(key, "__absent__")})
         if sorted(sa.get("required", [])) != sorted(sb.get("required", [])):
